@@ -59,8 +59,8 @@ func declMenu(f int) []decl {
 	}
 }
 
-var fileNames = []string{"a.fga", "b.fga", "c.fga"}
-var moduleNames = []string{"ma", "mb", "ma"} // the third file shares the first file's module
+var fileNames = []string{"a.fga", "b.fga", "c.fga", "d.fga"}
+var moduleNames = []string{"ma", "mb", "ma", "md"} // the third file shares the first file's module
 
 func buildFile(f int, ds []decl) FileSpec {
 	m := &ref.Model{Module: moduleNames[f]}
@@ -208,4 +208,56 @@ func FileSetsCoreEach(nfiles, maxDecl int, want func(i int) bool, f func(i int, 
 	menuFilter = func(tag string) bool { return coreMenu[tag] }
 	defer func() { menuFilter = nil }()
 	return FileSetsEach(nfiles, maxDecl, false, want, f)
+}
+
+// ManyExtendersEach: four files - a.fga defines t1 (without relations, with r0, or defines and extends it itself) and b, c, d
+// each extend t1 from a menu of five (relation x; y; x and y; an empty extension; nothing but a type of their own), so that
+// up to three extensions meet on one type, fresh and clashing, first-applied and later ones.
+func ManyExtendersEach(want func(i int) bool, f func(i int, fs FileSet)) int {
+	bases := []struct {
+		tag string
+		ts  []ref.TypeDef
+	}{
+		{"t1", []ref.TypeDef{{Name: "user"}, {Name: "t1"}}},
+		{"t1-r0", []ref.TypeDef{{Name: "user"}, {Name: "t1", Rels: []ref.Relation{rel("r0")}}}},
+		{"t1+extend-x", []ref.TypeDef{{Name: "user"}, {Name: "t1"}, {Name: "t1", Extend: true, Rels: []ref.Relation{rel("x")}}}},
+	}
+	ext := func(fi int) []struct {
+		tag string
+		ts  []ref.TypeDef
+	} {
+		own := fmt.Sprintf("own%d", fi)
+		return []struct {
+			tag string
+			ts  []ref.TypeDef
+		}{
+			{"x", []ref.TypeDef{{Name: "t1", Extend: true, Rels: []ref.Relation{rel("x")}}}},
+			{"y", []ref.TypeDef{{Name: "t1", Extend: true, Rels: []ref.Relation{rel("y")}}}},
+			{"x+y", []ref.TypeDef{{Name: "t1", Extend: true, Rels: []ref.Relation{rel("x"), rel("y")}}}},
+			{"empty", []ref.TypeDef{{Name: "t1", Extend: true}}},
+			{"own-type", []ref.TypeDef{{Name: own, Rels: []ref.Relation{rel("r")}}}},
+		}
+	}
+	n := 0
+	for _, b := range bases {
+		for _, e1 := range ext(1) {
+			for _, e2 := range ext(2) {
+				for _, e3 := range ext(3) {
+					if want == nil || want(n) {
+						fs := FileSet{Tag: fmt.Sprintf("many-extenders: a.fga:%s | b.fga:%s | c.fga:%s | d.fga:%s", b.tag, e1.tag, e2.tag, e3.tag)}
+						fs.Files = append(fs.Files, FileSpec{Name: fileNames[0], M: &ref.Model{Module: moduleNames[0], Types: b.ts}})
+						for k, e := range []struct {
+							tag string
+							ts  []ref.TypeDef
+						}{e1, e2, e3} {
+							fs.Files = append(fs.Files, FileSpec{Name: fileNames[k+1], M: &ref.Model{Module: moduleNames[k+1], Types: e.ts}})
+						}
+						f(n, fs)
+					}
+					n++
+				}
+			}
+		}
+	}
+	return n
 }
